@@ -19,9 +19,13 @@ class Outcome:
     def brief(self):
         if self.kind == 'value':
             return f"returned {short(self.val, 200)} ({type(self.val).__name__})"
+        try:
+            text = str(self.exc)
+        except Exception as e:      # rendering the error is itself under observation in some checks: never let it take the harness down
+            text = f"<str() of the error raised {type(e).__name__}: {e}>"
         if self.kind == 'converr':
-            return f"ConvertError: {short(str(self.exc), 200)}"
-        return f"ESCAPE {type(self.exc).__name__}: {short(str(self.exc), 200)}"
+            return f"ConvertError: {short(text, 200)}"
+        return f"ESCAPE {type(self.exc).__name__}: {short(text, 200)}"
 
 
 def observe(f, *a, **kw) -> Outcome:
